@@ -367,9 +367,9 @@ class Engine(TorchDispatchMode):
             if hi is not None:
                 cons.append(T.lt(v, hi))
             self.path.extend(cons)
-            if pos:
+            if pos or (kind == "real" and lo is not None and lo > 0):
                 T.declare_positive(v)
-            elif nonneg:
+            elif nonneg or (kind == "real" and lo is not None and lo >= 0):
                 T.declare_nonneg(v)
             if kind == "int" and lo is not None and hi is not None:
                 T.declare_range(nm, lo, hi)
